@@ -84,6 +84,13 @@ def c16_cases(rng, tier):
     for nn in (0, 1, 999, 1000, 1001):
         for ne in (0, 1, 999, 1000, 1001):
             cases.append("chkpred " + pred_tok([(EDGE_MAX, addr(1))] * nn, [0] * ne))
+    # far above the limits: counts that wrap to an accepted value if they are ever narrowed to 16 / 8 bits
+    for ne in (1256, 2000, 65535, 65536, 65537, 65536 + 1000, 65536 + 1001):
+        cases.append("chkpred " + pred_tok([(0, addr(1))], [0] * ne))
+    for nn in (1256, 65536, 65536 + 1000):
+        cases.append("chkpred " + pred_tok([(EDGE_MAX, addr(1))] * nn, []))
+    cases.append("chkcontract 1 " + pred_tok([(0, addr(1))], [0] * 65537))
+    cases.append("chkcontract 356 " + " ".join([pred_tok([(EDGE_MAX, addr(1))], [])] * 356))
     for np_ in (0, 1, 99, 100, 101):
         cases.append("chkcontract " + f"{np_}" + "".join(" " + pred_tok([(EDGE_MAX, addr(i))], []) for i in range(np_)))
     big_n = pred_tok([(EDGE_MAX, addr(1))] * 1001, [])
@@ -118,8 +125,58 @@ def enc_pred_py(nodes, edges):
     return b
 
 
+def serde_oracles(rng, tier):
+    """round trips of every public data type through JSON, postcard, Display/FromStr, legacy field names (implementation only)"""
+    out = []
+    words = [0, 1, -1, I64_MIN, I64_MAX, 127, 128, 255, 256, 16383, 16384, -64, -65, 63, 64]
+    salts = [bytes(32), bytes([0xFF]) * 32, bytes([0] * 31 + [1]), bytes([1] + [0] * 31), addr(3)]
+    addrs = [bytes(32), bytes([0xFF]) * 32, ADDR_A, ADDR_B, addr(9)]
+    def rword():
+        return rng.choice(words) if rng.random() < 0.7 else rng.randrange(I64_MIN, I64_MAX + 1)
+    def rwords(hi=4):
+        return [rword() for _ in range(rng.randrange(0, hi))]
+    def rsol():
+        return sol(rng.choice(addrs), rng.choice(addrs), [rwords() for _ in range(rng.randrange(0, 4))],
+                   [(rwords(), rwords()) for _ in range(rng.randrange(0, 4))])
+    def rpred():
+        nn, ne = rng.choice([0, 1, 2, 5]), rng.choice([0, 1, 3])
+        return [(rng.choice([0, 1, 2, 300, EDGE_MAX]), rng.choice(addrs)) for _ in range(nn)], [rng.choice([0, 1, 2, 65535, 300]) for _ in range(ne)]
+    fixed_sols = [sol(), sol(bytes(32), bytes(32)), sol(data=[[]]), sol(data=[[], []], muts=[([], [])]), sol(muts=[([I64_MIN], [I64_MAX, 0])])]
+    for s_ in fixed_sols:
+        out.append("o_serde solution " + sol_tok(s_))
+    out.append("o_serde set 0")
+    out.append("o_serde set " + sols_tok(fixed_sols))
+    for salt in salts:
+        out.append("o_serde contract " + contract_tok([], salt))
+        out.append("o_serde contract " + contract_tok([([], [])], salt))
+        out.append("o_serde contract " + contract_tok([rpred(), rpred()], salt))
+        for rid in (0, 1, 3, 4, 27, 255):
+            out.append("o_serde signed " + contract_tok([rpred()], salt) + " " + hx(bytes([rid]) * 64) + f" {rid}")
+    for a in addrs:
+        out.append("o_serde caddr " + hx(a))
+        for b in addrs[:3]:
+            out.append("o_serde paddr " + hx(a) + " " + hx(b))
+    for rid in range(0, 256, 1 if tier != "quick" else 17):
+        out.append("o_serde signature " + hx(bytes((rid * 7 + i) & 0xFF for i in range(64))) + f" {rid}")
+    out.append("o_serde signature " + hx(bytes(64)) + " 0")
+    for b in (b"", b"\x00", b"\x01\x00\x00", bytes(range(256))):
+        out.append("o_serde program " + hx(b))
+    for k, v in (([], []), ([0], []), ([], [0]), ([I64_MIN], [I64_MAX]), ([1] * 5, [2] * 7)):
+        out.append("o_serde mutation " + L(k) + " " + L(v))
+    out.append("o_serde predicate " + pred_tok([], []))
+    for _ in range(60 if tier == "quick" else 3000):
+        out.append("o_serde solution " + sol_tok(rsol()))
+        out.append("o_serde set " + sols_tok([rsol() for _ in range(rng.randrange(0, 4))]))
+        n_, e_ = rpred()
+        out.append("o_serde predicate " + pred_tok(n_, e_))
+        out.append("o_serde contract " + contract_tok([rpred() for _ in range(rng.randrange(0, 3))], rng.choice(salts)))
+        out.append("o_serde mutation " + L(rwords()) + " " + L(rwords()))
+    return out
+
+
 def c18_cases(rng, tier):
     cases, oracles = [], []
+    oracles += serde_oracles(rng, tier)
     # predicates: sizes 0..limits, any edge_start incl. the leaf marker
     for nn, ne in ((0, 0), (1, 0), (0, 1), (1, 1), (2, 3), (1000, 1000), (1001, 0), (0, 1001), (1000, 1001), (999, 999)):
         nodes = [((i * 7) % 65536 if i % 3 else EDGE_MAX, addr(i)) for i in range(nn)]
